@@ -53,7 +53,7 @@ def probe_kernel_trace(d):
 
 
 def probe_cache_trace(d):
-    """CacheDeterminism: the accepted trace of a tiny run; one digest flipped; one Lookup marked as a hit."""
+    """CacheDeterminism: the accepted trace of a tiny run; one digest flipped; a hit that returns a kernel never handed out."""
     base = [{"ev": "Meta", "proc": "p", "maxsize": 2},
             {"ev": "Generated", "proc": "p0", "req": 1, "sha": "aa"}, {"ev": "Generated", "proc": "p1", "req": 1, "sha": "aa"},
             {"ev": "Cli", "proc": "p1", "req": 1, "stdout": "aa", "file": "aa"},
@@ -66,7 +66,7 @@ def probe_cache_trace(d):
     variants = {"recorded": base}
     v = copy.deepcopy(base); v[2]["sha"] = "bb"; variants["digest-differs-across-processes"] = v
     v = copy.deepcopy(base); v[3]["file"] = "cc"; variants["-o-differs-from-stdout"] = v
-    v = copy.deepcopy(base); v[8]["hit"] = True; variants["hit-after-eviction"] = v
+    v = copy.deepcopy(base); v[8]["hit"] = True; variants["hit-returns-unseen-kernel"] = v
     v = copy.deepcopy(base); v[6]["kernel"] = 11; variants["kernel-shared-between-problems"] = v
     v = copy.deepcopy(base); v[10]["sha"] = "r2"; variants["result-depends-on-cache"] = v
     got = {}
